@@ -148,6 +148,10 @@ func (ex *Exec) callFn(fr *frame, fn *ssa.Function, args []Val, bind []Val, st *
 		v.T = resType(res)
 		return v
 	}
+	if fnPkgPath(fn) == ex.w.module+"/log" {
+		ex.used["A-LOG: log calls have no effect on tracked state"] = true
+		return ex.freshResults(ctx, false)
+	}
 	if c := ex.w.contracts[fn]; c != nil && !c.Inline && (len(c.Requires)+len(c.Ensures) > 0 || c.HasMod || c.Trusted) && ex.pure == 0 {
 		if !(c.Trusted && len(fn.Blocks) > 0 && ex.inRepo(fn) && len(c.Ensures) == 0) {
 			return ex.callContract(c, fn.Params, fn.Signature, args, st, reach, fr)
@@ -167,11 +171,13 @@ func (ex *Exec) callFn(fr *frame, fn *ssa.Function, args []Val, bind []Val, st *
 		}
 		saved := ex.loopStack
 		r := "true"
-		if reach != nil {
+		if reach != nil && ex.pure == 0 {
 			r = *reach
 		}
+		savedReach := ex.curReach
 		rets, out, rr := ex.execFunc(fn, args, bind, st, r, depth, false, site, outer)
 		ex.loopStack = saved
+		ex.curReach = savedReach
 		*st = *out
 		if reach != nil && rr != "false" {
 			*reach = ex.name("reach", and(*reach, rr), sBool)
@@ -579,7 +585,6 @@ func (fr *frame) checkPost(ret *ssa.Return, vals []Val, st *State, reach string)
 			extra[n] = v
 		}
 	}
-	ex.returnReach = append(ex.returnReach, reach)
 	for _, cl := range fr.c.Ensures {
 		g := fr.evalClause(cl, nil, st, extra)
 		ex.oblige(cl.Label, "ensures", cl.Props, imp(reach, g), cl.Pos, cl.Text)
